@@ -90,6 +90,8 @@ macro_rules! four_forms {
 pub fn lin<L>()
 where
     L: Fixed + core::ops::Add<Output = L> + core::ops::Sub<Output = L>,
+    for<'a> &'a L: core::ops::Add<&'a L, Output = L> + core::ops::Sub<&'a L, Output = L>,
+    for<'a> L: core::ops::AddAssign<&'a L> + core::ops::SubAssign<&'a L>,
     L::Bits: Raw,
 {
     let a = <L::Bits as Raw>::any();
@@ -113,10 +115,21 @@ where
         "sub: checked/saturating/wrapping/overflowing agree with the exact result a-b");
     if !w_add.overflow {
         assert!((x + y).to_bits() == w_add.wrapped, "a + b is exact when representable");
+        let mut t = x;
+        t += y;
+        let mut u = x;
+        u += &y;
+        assert!(t.to_bits() == w_add.wrapped && u.to_bits() == w_add.wrapped && (&x + &y).to_bits() == w_add.wrapped, "a += b, a += &b, &a + &b equal a + b");
     }
     if !w_sub.overflow {
         assert!((x - y).to_bits() == w_sub.wrapped, "a - b is exact when representable");
+        let mut t = x;
+        t -= y;
+        let mut u = x;
+        u -= &y;
+        assert!(t.to_bits() == w_sub.wrapped && u.to_bits() == w_sub.wrapped && (&x - &y).to_bits() == w_sub.wrapped, "a -= b, a -= &b, &a - &b equal a - b");
     }
+
 }
 
 /// abs (signed types only)
@@ -135,6 +148,11 @@ where
         "abs: checked/saturating/wrapping/overflowing agree with the exact result |a|");
     if !w_abs.overflow {
         assert!(FixedSigned::abs(x).to_bits() == w_abs.wrapped, "abs is exact when representable");
+        // operator form of negation (a != min here): same value as checked_neg
+        match x.checked_neg() {
+            Some(n) => assert!((-x).to_bits() == n.to_bits(), "-a equals checked_neg when representable"),
+            None => assert!(false, "checked_neg is Some when |a| is representable"),
+        }
     }
 }
 
